@@ -201,8 +201,17 @@ def distance_increments(ctx: Ctx) -> dict[str, tuple[Optional[Lin], ast.AST, str
             out[form] = (l, g.node, f"{form}: {text}", agg)
         else:
             out[form] = (None, g.node, f"{form}: {text or 'not followed'}", agg)
-    # preprocess: abstract / concrete equations (aggregations over the table / over get_distance_to_terminal of the fields)
+    # abstract / concrete equations: read off the tables that the interpreted analysis (sa/rules/grammodel.py) ends with on a probe
+    # grammar  A -> Lo() | Hi(h: Mid),  Mid(l: Lo),  W(a: Mid, b: Lo)  in both depth modes
     p = ctx.fn(PREPROCESS)
+    probe = _probe_equations(ctx)
+    if probe is not None:
+        for form in ("abstract", "concrete"):
+            inc, agg = probe[form]
+            out[form] = (inc, p.node, f"{form}: model grammar probe", agg)
+        return out
+    # preprocess: abstract / concrete equations (aggregations over the table / over get_distance_to_terminal of the fields)
+
     env0 = _dist_env()
     # preprocess and the helper methods / functions of the grammar module it calls
     srcs = [p]
@@ -253,6 +262,43 @@ def distance_increments(ctx: Ctx) -> dict[str, tuple[Optional[Lin], ast.AST, str
                 out["concrete"] = (v - Lin.sym("R"), c, norm(c)[:70], c.func.id)
             elif uses_tab:
                 out["abstract"] = (v - Lin.sym("R"), c, norm(c)[:70], c.func.id)
+    return out
+
+
+def _probe_equations(ctx: Ctx):
+    """{'abstract': (increment as a Lin in e, 'min' | 'max'), 'concrete': (...)} from the interpreted analysis, or None"""
+    from .grammodel import C, INT, ModelGrammar, interpret, names
+    g = ModelGrammar("probe", "A", {
+        "A": ("abstract", None, []), "Lo": ("concrete", "A", []), "Hi": ("concrete", "A", [("h", C("Mid"))]),
+        "Mid": ("concrete", None, [("l", C("Lo"))]), "W": ("concrete", "A", [("a", C("Mid")), ("b", C("Lo"))]),
+    }, ["Lo", "Hi", "W", "Mid"])
+    vals = {}
+    for e in (0, 1):
+        st, why = interpret(ctx, g, e)
+        if st is None:
+            return None
+        D = names(st.get("self.distanceToTerminal"))
+        if not isinstance(D, dict) or not all(isinstance(D.get(k), int) for k in ("A", "Lo", "Hi", "Mid", "W")):
+            return None
+        vals[e] = D
+    out = {}
+    # abstract: D(A) against its shallowest / deepest production
+    res = {}
+    for e in (0, 1):
+        D = vals[e]
+        lo, hi = min(D["Lo"], D["Hi"], D["W"]), max(D["Lo"], D["Hi"], D["W"])
+        res[e] = ("min", D["A"] - lo) if D["A"] - lo <= 1 and D["A"] < hi else ("max", D["A"] - hi)
+    if res[0][0] != res[1][0]:
+        return None
+    out["abstract"] = (Lin.c(res[0][1]) + Lin.sym("e").scale(res[1][1] - res[0][1]), res[0][0])
+    res = {}
+    for e in (0, 1):
+        D = vals[e]
+        lo, hi = min(D["Mid"], D["Lo"]), max(D["Mid"], D["Lo"])
+        res[e] = ("max", D["W"] - hi) if D["W"] > hi else ("min", D["W"] - lo)
+    if res[0][0] != res[1][0]:
+        return None
+    out["concrete"] = (Lin.c(res[0][1]) + Lin.sym("e").scale(res[1][1] - res[0][1]), res[0][0])
     return out
 
 
@@ -740,12 +786,19 @@ def polarity_rule(ctx: Ctx, rid: str, sides: tuple = ("and", "or")) -> None:
                witness={"form": form, "aggregator": got, "expected": agg})
     if "or" in sides:
         # monotone descent: the stored value only decreases
-        upd = [a for a in walk_local(p.node) if isinstance(a, ast.Assign) and isinstance(a.targets[0], ast.Subscript)
+        fns_ = [p]
+        for x in walk_local(p.node, include_nested=True):
+            if isinstance(x, ast.Call) and isinstance(x.func, ast.Attribute) and isinstance(x.func.value, ast.Name) and x.func.value.id == "self" \
+                    and p.cls is not None:
+                h_ = ctx.prog.lookup_method(p.cls, x.func.attr)
+                if h_ is not None and h_ not in fns_ and any(isinstance(w_, ast.While) for w_ in ancestors(x)):
+                    fns_.append(h_)
+        upd = [(f_, a) for f_ in fns_ for a in walk_local(f_.node) if isinstance(a, ast.Assign) and isinstance(a.targets[0], ast.Subscript)
                and isinstance(a.targets[0].value, ast.Attribute) and a.targets[0].value.attr == "distanceToTerminal"
-               and any(isinstance(x, ast.While) for x in ancestors(a))]
-        for a in upd:
+               and (f_ is not p or any(isinstance(x, ast.While) for x in ancestors(a)))]
+        for f_, a in upd:
             n += 1
-            gs = guards(a, stop=p.node)
+            gs = guards(a, stop=f_.node)
             ok = any(isinstance(t, ast.Compare) and isinstance(t.ops[0], (ast.Lt, ast.Gt)) and pol for t, pol in gs)
             ctx.ob(rid, p, a, "fixpoint update applied only when the value decreases", ok,
                    "" if ok else "the distance table is overwritten without the 'new < old' test: the iteration is not a monotone descent")
